@@ -60,6 +60,11 @@ def resolve_tps(recipe, rendered):
             elif where[0] == 'raw':
                 d['path'] = os.path.basename(files[where[1] % len(files)]['path'])
                 d['line'] = where[2]
+            elif where[0] == 'mirror':
+                # the line number of a statement of one file, configured for the *other* file of the program
+                s = rendered.stmts[where[1] % nst]
+                d['path'] = os.path.basename(files[(s['file'] + 1) % len(files)]['path'])
+                d['line'] = s['line']
             else:   # other file
                 d['path'] = 'elsewhere.py'
                 d['line'] = where[2]
@@ -73,6 +78,11 @@ def resolve_tps(recipe, rendered):
             elif where[0] == 'absent':
                 d['path'] = os.path.basename(files[where[1] % len(files)]['path'])
                 d['name'] = 'no_such_function'
+            elif where[0] == 'mirror':
+                # the name of a function of one file, configured for the other file of the program
+                fi = rendered.func_info[where[1] % len(rendered.func_info)]
+                d['path'] = os.path.basename(files[(fi['file'] + 1) % len(files)]['path'])
+                d['name'] = fi['name']
             else:
                 d['path'] = 'elsewhere.py'
                 d['name'] = 'f1'
@@ -205,10 +215,12 @@ class C03(Prop):
             st.tuples(st.just('stmt'), st.integers(0, 60)),
             st.tuples(st.just('def'), st.integers(0, 5)),
             st.tuples(st.just('raw'), st.integers(0, 1), st.integers(1, 60)),
+            st.tuples(st.just('mirror'), st.integers(0, 60)),
             st.tuples(st.just('other'), st.just(0), st.integers(1, 40)))
         method_where = st.one_of(st.tuples(st.just('func'), st.integers(0, 5)),
                                  st.tuples(st.just('func'), st.integers(0, 5)),
                                  st.tuples(st.just('absent'), st.integers(0, 1)),
+                                 st.tuples(st.just('mirror'), st.integers(0, 5)),
                                  st.tuples(st.just('other'), st.just(0)))
         tp = st.one_of(
             fd({'kind': st.just('line'), 'where': line_where.map(list),
@@ -388,6 +400,8 @@ class C03(Prop):
             out.cls('same_basename_files')
         if recipe['route'] == 'response':
             out.cls('via_convert_response')
+        if len(recipe['prog']['files']) == 2 and any(t['where'][0] == 'mirror' for t in recipe['tps']):
+            out.cls('same_line_or_name_in_the_other_file')
         out.nontrivial = len(tps) >= 2 and bool(fired_ids) and nonmatching[0] >= 20
         # ---- verdict ------------------------------------------------------------------------
         if ip.agent_raised:
